@@ -30,15 +30,24 @@ THEOREMS = [
     "IrVerif.Path.C10_lexical",
     "IrVerif.Path.C10_real",
     "IrVerif.Path.C10_read_safe",
+    "IrVerif.Path.C10_open_safe",
     "IrVerif.Path.C10_all_entry_points",
     "IrVerif.Path.C10_load_base_nonempty",
+    "IrVerif.Path.C10_load_base_is_model_dir",
+    "IrVerif.Path.C10_load_read_safe",
 ]
 ASSUMPTIONS = [
     "POSIX only: os.path.normcase is the identity; Windows/ntpath behaviour is not modelled",
     "no concurrent modification of the tree between the check and the open (TOCTOU is outside the model)",
-    "path strings contain no NUL character",
-    "CPython 3.12 posixpath semantics (join, normpath, abspath, realpath/_joinrealpath) as transcribed",
-    "mmaps that were loaded before base_dir was re-assigned are not covered",
+    "path strings contain no NUL character (NUL locations are exercised by the oracle only)",
+    "CPython 3.12 posixpath semantics (join, normpath, abspath, split/dirname, realpath/_joinrealpath with its seen cache) "
+    "as transcribed; the kernel's path resolution (path_resolution(7): lookup in directories, '..' at the root, symlink "
+    "following, trailing separators, ENOTDIR/ENOENT/ELOOP as a nesting bound) is a hand-written model validated against "
+    "os.lstat/os.stat/os.path.realpath on fixed and random trees",
+    "os.getcwd() names a chain of real directories (true on POSIX); theorems about reads assume the Python recursion "
+    "bound is at least the kernel's symlink bound",
+    "mmaps that were loaded before base_dir was re-assigned, and a second read of an already loaded tensor, are not covered",
+    "file permissions, mount points, special files and st_nlink of directories beyond what the tree reports are not modelled",
 ]
 
 NBYTES = 8
@@ -374,6 +383,7 @@ def base_spellings(R: str) -> list[dict]:
         {"cwd": R, "base": R + "/base/loop_a", "true": None, "kind": "abs-symlink-loop"},
         {"cwd": R, "base": "base/dangling", "true": None, "kind": "rel-dangling"},
         {"cwd": R, "base": "/", "true": "/", "kind": "root"},
+        {"cwd": R + "/base", "base": "dlink_out/..", "true": R, "kind": "rel-lexical-differs-from-real"},
     ]
 
 
@@ -531,10 +541,12 @@ def string_functions(ctx: Ctx) -> None:
         reqs.append({"m": "path.normpath", "p": s}); exp.append(posixpath.normpath(s)); cases.append(("normpath", s))
         reqs.append({"m": "path.dirname", "p": s}); exp.append(posixpath.dirname(s)); cases.append(("dirname", s))
         reqs.append({"m": "path.split", "p": s}); exp.append(list(posixpath.split(s))); cases.append(("split", s))
-    short = [s for s in strs if len(s) <= 3]
-    for a in short:
-        for b in short:
-            reqs.append({"m": "path.join", "a": a, "b": b}); exp.append(posixpath.join(a, b)); cases.append(("join", [a, b]))
+    nex = sum(len(alpha) ** k for k in range(0, n + 1))
+    short = [s for s in strs[:nex] if len(s) <= 3]
+    pairs = [(a, b) for a in short for b in short]
+    pairs += [(ctx.rng.choice(strs), ctx.rng.choice(strs)) for _ in range(ctx.pick(5000, 50000))]
+    for a, b in pairs:
+        reqs.append({"m": "path.join", "a": a, "b": b}); exp.append(posixpath.join(a, b)); cases.append(("join", [a, b]))
     old = os.getcwd()
     try:
         for cwd in ("/", "/tmp"):
@@ -631,10 +643,56 @@ def load_cases(ctx: Ctx, tree: dict, desc: dict) -> None:
 SLICES = [(0, NBYTES), (2, 4), (0, 3), (4, NBYTES)]  # the last one is longer than the file
 
 
+def _snapshot_driver() -> str | None:
+    """Use a private copy of the model driver for the whole run: a concurrent `lake build` (another
+    check's proof tier) relinks the shared binary and it is absent for a moment."""
+    import time
+
+    import harness.common as common
+
+    for _ in range(120):
+        try:
+            fd, tmp = tempfile.mkstemp(prefix="irverif-c10-driver-")
+            os.close(fd)
+            shutil.copy2(common.DRIVER, tmp)
+            os.chmod(tmp, 0o755)
+            if os.path.getsize(tmp) > 0:
+                common.DRIVER = tmp
+                return tmp
+        except OSError:
+            pass
+        try:
+            os.remove(tmp)
+        except OSError:
+            pass
+        time.sleep(0.5)
+    return None
+
+
 def run(ctx: Ctx) -> None:
+    import harness.common as common
+
+    orig_driver = common.DRIVER
+    snap = _snapshot_driver()
+    try:
+        _run(ctx)
+    finally:
+        common.DRIVER = orig_driver
+        if snap:
+            try:
+                os.remove(snap)
+            except OSError:
+                pass
+
+
+def _run(ctx: Ctx) -> None:
     ctx.rule = ("one case = (cwd, base spelling, location string, entry point, offset, length) read on the real tree; distinct by "
                 "that tuple with the temp root abstracted; all are non-trivial (a real ExternalTensor read is attempted); "
                 "string-function / realpath cases are distinct by (function, argument)")
+    if isinstance(getattr(ctx, "proof", None), dict):
+        ctx.proof.setdefault("extra_trusted", []).append(
+            "model of the kernel's path resolution and of CPython posixpath (join/normpath/abspath/dirname/realpath): "
+            "validated differentially on every run, not verified against the kernel or CPython sources")
     string_functions(ctx)
     tree = build_tree()
     old = os.getcwd()
@@ -685,10 +743,70 @@ def run(ctx: Ctx) -> None:
         for p in pmap(_realpath_work, rp_jobs):
             ctx.merge(p)
         load_cases(ctx, tree, desc)
+        odd_cases(ctx, tree, desc)
         random_trees(ctx)
     finally:
         os.chdir(old)
         shutil.rmtree(tree["top"], ignore_errors=True)
+
+
+def odd_cases(ctx: Ctx, tree: dict, desc: dict) -> None:
+    """Unusual strings and os.PathLike arguments: NUL, very long names, unicode, backslashes,
+    pathlib objects, base_dir assigned after construction.  Oracle on all; model compared unless the
+    string contains NUL (outside the model's alphabet)."""
+    import pathlib
+
+    R = tree["R"]
+    b = R + "/base"
+    locs = ["f\0", "\0", "../outside/canary\0", "f\0/../../outside/canary", "link_out\0", "x" * 300, "d/" + "y" * 5000,
+            "é/f", "ｆ", "f ", " f", "f\n", "..\\outside\\canary", "~/canary", "$HOME/x", "%2e%2e/outside/canary",
+            "..%2foutside%2fcanary", "....//outside/canary", ".../outside/canary", "..../f", ". /f", ".. /outside/canary",
+            "d/..\\..\\outside/canary", "\\..\\outside", "f/", "f/.", "f/..", "f/../f", "link_in/", "link_in/.",
+            "link_out/", "dlink_out", "dlink_out/", "dlink_out/.", "dlink_out/..", "dlink_out/../base/f", "dlink_in/../f",
+            "dlink_in/../../outside/canary", "d/up/../outside/canary", "d/up/../base/f", "back", "../outside/back/f",
+            "hard/", "dangling/..", "dangling_out/../f", "loop_a/../f", "loop_a/f", "chain_in", "link_abs_in",
+            "link_abs_out", "link_sib", "d/e/../../f", "d/e/../../../outside/f", "//", "/", "///" + R.lstrip("/") + "/base/f",
+            "//" + R.lstrip("/") + "/base/f", "//" + R.lstrip("/") + "/outside/canary"]
+    old = os.getcwd()
+    try:
+        os.chdir(R)
+        queries, obs_l = [], []
+        k = 0
+        for base in (b, "base", "./base//", R + "/blink"):
+            for loc in locs:
+                k += 1
+                ep = ENTRY_POINTS[k % len(ENTRY_POINTS)]
+                variant = k % 4
+                case = {"cwd": R, "base": base, "loc": loc, "ep": ep, "offset": 0, "length": NBYTES, "via": ["str", "pathlike-loc", "pathlike-base", "base-assigned-later"][variant]}
+                bobj, lobj = base, loc
+                if variant == 1 and "\0" not in loc and str(pathlib.PurePosixPath(loc)) == loc:
+                    lobj = pathlib.PurePosixPath(loc)
+                if variant == 2 and str(pathlib.PurePosixPath(base)) == base:
+                    bobj = pathlib.PurePosixPath(base)
+                try:
+                    if variant == 3:
+                        t = make_tensor("", lobj)
+                        t.base_dir = bobj
+                    else:
+                        t = make_tensor(bobj, lobj)
+                except Exception as e:  # noqa: BLE001  constructing never reads
+                    ctx.count("odd-construct-raised")
+                    continue
+                obs = real_read(t, ep, tree["scratch"], R)
+                oracle(ctx, tree, desc, case, obs, b)
+                ctx.case(["odd", base.replace(R, "$R"), loc.replace(R, "$R"), ep, variant], odd=case["via"],
+                         outcome=(obs["r"] if obs["r"] == "ok" else "raised-" + obs.get("layer", "?")))
+                if "\0" not in loc:
+                    queries.append([base, loc, 0, NBYTES, ep])
+                    obs_l.append((case, obs))
+        mo = lean_batch([{"m": "path.reads", "fs": fs_json(desc), "cwd": R, "kfuel": KFUEL, "fuel": PFUEL, "queries": queries}])[0]
+        if "r" not in mo:
+            ctx.disagree("model error", {"odd": True}, mo, None)
+        else:
+            for (case, obs), o in zip(obs_l, mo["r"]):
+                compare(ctx, case, obs, o, {}, R)
+    finally:
+        os.chdir(old)
 
 
 def random_trees(ctx: Ctx) -> None:
